@@ -48,6 +48,7 @@ func main() {
 		{"keys", 6, famKeys},
 		{"curves", 6, famCurves},
 		{"nep2", 1, famNEP2},
+		{"layout", 12, famLayout},
 	}
 	weights := make([]int, len(fams))
 	for i, fm := range fams {
